@@ -288,6 +288,9 @@ type c14AddrCase struct {
 	From       string `json:"from"`
 	To         string `json:"to"`
 	ClientUTF8 bool   `json:"client_utf8"` // MailOptions.UTF8
+	// ViaSendMail: the envelope is handed to Client.SendMail (one call for
+	// sender, recipient and message) instead of Mail and Rcpt
+	ViaSendMail bool `json:"via_sendmail,omitempty"`
 }
 
 // c14AddrRun: whatever sender / recipient string the client API accepts (the
@@ -302,9 +305,14 @@ func c14AddrRun(c c14AddrCase) Verdict {
 	if c.ClientUTF8 {
 		mo = &smtp.MailOptions{UTF8: true}
 	}
+	var sendErr error
 	ok := withClient(r, false, func(cl *smtp.Client, w *harness.Wire) {
 		if err := cl.Hello("cli"); err != nil {
 			mailErr = fmt.Errorf("hello: %w", err)
+			return
+		}
+		if c.ViaSendMail {
+			sendErr = cl.SendMail(c.From, []string{c.To}, strings.NewReader("Subject: x\r\n\r\nbody\r\n"))
 			return
 		}
 		mailErr = cl.Mail(c.From, mo)
@@ -389,6 +397,56 @@ func c14AddrRun(c c14AddrCase) Verdict {
 		v.Classes = append(v.Classes, what+"_accepted")
 		return nil
 	}
+	if c.ViaSendMail {
+		// one call: if it succeeds, both were accepted; otherwise whatever
+		// reached the backend must still be what was given
+		v.Classes = append(v.Classes, "via_sendmail")
+		if strings.ContainsAny(c.From+c.To, "<> \"\\:,;()[]") || !printable(c.From+c.To) {
+			v.NonTrivial = true
+		}
+		check := func(what, addr string, got []string) *Verdict {
+			routeless := addr
+			if i := strings.IndexByte(addr, ':'); strings.HasPrefix(addr, "@") && i >= 0 {
+				routeless = addr[i+1:]
+			}
+			okSpellings := []string{addr, routeless}
+			for _, x := range []string{addr, routeless} {
+				if strings.HasPrefix(x, "\"") {
+					okSpellings = append(okSpellings, unquoteLocal(x))
+				}
+			}
+			for _, g := range got {
+				if !contains(okSpellings, g) {
+					f := failf("addr-differs", "SendMail: %s %q reached the backend as %q", what, addr, g)
+					return &f
+				}
+			}
+			if sendErr == nil && len(got) != 1 {
+				f := failf("addr-callbacks", "SendMail succeeded but the backend saw %d %s calls", len(got), what)
+				return &f
+			}
+			return nil
+		}
+		var gf, gt []string
+		for _, e := range mails {
+			gf = append(gf, e.From)
+		}
+		for _, e := range rcpts {
+			gt = append(gt, e.To)
+		}
+		if bad := check("sender", c.From, gf); bad != nil {
+			return *bad
+		}
+		if bad := check("recipient", c.To, gt); bad != nil {
+			return *bad
+		}
+		fl := ref.Classify(true, "FROM:<"+c.From+"> BODY=8BITMIME", flags)
+		tl := ref.Classify(false, "TO:<"+c.To+">", flags)
+		if sendErr != nil && fl.Class == ref.Valid && contains(fl.Mailboxes, c.From) && tl.Class == ref.Valid && contains(tl.Mailboxes, c.To) {
+			return failf("addr-refused", "SendMail(%q, %q) failed although both are well-formed mailboxes: %v", c.From, c.To, sendErr)
+		}
+		return v
+	}
 	var gotFrom, gotTo []string
 	for _, e := range mails {
 		if e.From != "fallback@x" || c.From == "fallback@x" {
@@ -428,7 +486,7 @@ func bracketOutsideQuotes(s string) bool {
 }
 
 var c14AddrPieces = []string{"a", "b1", "user", ".", "..", "@", "@", "x.org", "d", "[1.2.3.4]", "[IPv6:::1]", "\"q s\"", "\"a\\\"b\"", "\"a>b\"", "<", ">", " ", "SIZE=1", "ENVID=x",
-	"BODY=8BITMIME", "NOTIFY=NEVER", "SMTPUTF8", ":", ",", "@r1,@r2:", "é", "ü", "用", "\\", "(c)", ";", "+", "=", "-", "_", "!", "%", "\t", "\"", "xn--bcher-kva.example", "bücher.example"}
+	"BODY=8BITMIME", "NOTIFY=NEVER", "SMTPUTF8", ":", ",", "@r1,@r2:", "é", "ü", "用", "\\", "(c)", ";", "+", "=", "-", "_", "!", "%", "\t", "\"", "xn--bcher-kva.example", "bücher.example", "\u3000", "\u00a0", "\u0085", "\u2003"}
 
 func c14GenAddr(t *rapid.T, label string) string {
 	switch rapid.IntRange(0, 3).Draw(t, label+"_shape") {
@@ -659,6 +717,18 @@ func TestC14(t *testing.T) {
 	c14Addr.rapidCheck(t, pickTier(4000, 30000), func(rt *rapid.T) c14AddrCase {
 		c := c14AddrCase{ServerUTF8: rapid.Bool().Draw(rt, "server_utf8"), From: c14GenAddr(rt, "from"), To: c14GenAddr(rt, "to")}
 		c.ClientUTF8 = c.ServerUTF8 && rapid.Bool().Draw(rt, "client_utf8")
+		if rapid.IntRange(0, 2).Draw(rt, "via_sendmail") == 0 {
+			c.ViaSendMail, c.ClientUTF8 = true, false
+			if rapid.Bool().Draw(rt, "space_at_the_ends") {
+				// text that some notions of "white space" would trim
+				sp := rapid.SampledFrom([]string{"\u3000", "\u00a0", "\u0085", "\u2003", " ", "\t"}).Draw(rt, "sp")
+				if rapid.Bool().Draw(rt, "lead") {
+					c.From, c.To = sp+c.From, sp+c.To
+				} else {
+					c.From, c.To = c.From+sp, c.To+sp
+				}
+			}
+		}
 		return c
 	})
 }
